@@ -186,8 +186,41 @@ def enc_ids(ids, n):
     return [i if i >= 0 else n + 1000 + abs(i) for i in ids]
 
 
+def crowded_mu(sorted_mu, t) -> bool:
+    """another trap within one micro-unit of trap `t` (inside the look-up precision)"""
+    return sum(1 for u in sorted_mu if all(abs(a - b) <= 1 for a, b in zip(u, t))) > 1
+
+
 def frac(x) -> Fraction:
     return Fraction(float(x))
+
+
+def rpos(v) -> Fraction:
+    """wire form of a caller-given register coordinate in micro-units: the integer when the float is
+    itself a rounded value (the very float a trap there has), else the exact value (never an integer)"""
+    v = float(v)
+    return Fraction(mu(v)) if v == rnd(v) else Fraction(v) * 10**6
+
+
+def edit_in_place(a, op: str) -> bool:
+    """what a caller might do to an array it was handed (`pos -= centre`, …)"""
+    if not isinstance(a, np.ndarray) or a.size == 0:
+        return False
+    try:
+        if op == "shift":
+            a += 7.25
+        elif op == "zero":
+            a[...] = 0
+        else:
+            a *= 3
+        return True
+    except (ValueError, TypeError):     # read-only or integer array
+        return False
+
+
+def handed_out(obj, name):
+    v = getattr(obj, name)
+    return list(v.values()) if isinstance(v, dict) else [v]
 
 
 def run_case(drv: Driver, case: dict) -> Result:
@@ -229,7 +262,20 @@ def run_case(drv: Driver, case: dict) -> Result:
                     raise InfraError(f"rounding oracle off for {v!r}")
 
     # ---- layout construction -------------------------------------------
-    real = real_call(lambda: RegisterLayout(coords))
+    # the container the caller passes (and may edit afterwards): nested list copy or numpy array
+    hist = case.get("history") or {}
+    inp = copy.deepcopy(coords)
+    if hist.get("input") == "ndarray" and rect and len(coords[0]) in (2, 3):
+        inp = np.array(coords, dtype=float)
+    real = real_call(lambda: RegisterLayout(inp))
+    if hist.get("edit_input") and real[0] == "ok":
+        # the caller goes on using its own array / list; the layout must not follow
+        if isinstance(inp, np.ndarray):
+            inp += 11.5
+        else:
+            for row in inp:
+                row[0] = row[0] + 11.5
+        res.branches["history-input-" + ("ndarray" if isinstance(inp, np.ndarray) else "list")] += 1
     model = ask(f"layout {wire_coords(cmu)}")
     dims_ok = rect and len(coords[0]) in (2, 3)
     # traps are identified by their rounded coordinates: those must be pairwise different
@@ -241,8 +287,35 @@ def run_case(drv: Driver, case: dict) -> Result:
     if not cmp_status("layout-build", real, model):
         return res
     L = real[1]
-    n = L.number_of_traps
     md = model[1]
+    # ---- history: edit in place whatever the accessors hand out, one accessor at a time ----
+    exp_sorted = [[rnd(v) for v in c] for c in sorted(coords, key=lambda c: tuple(mu(v) for v in c))]
+
+    def layout_consistent(obj, want):
+        try:
+            td_ = obj.traps_dict
+            return (list(td_.keys()) == list(range(len(want)))
+                    and all([float(v) for v in td_[i]] == want[i] for i in range(len(want)))
+                    and obj.coords.astype(float).tolist() == want and obj.sorted_coords.astype(float).tolist() == want
+                    and obj.number_of_traps == len(want))
+        except Exception:  # noqa: BLE001
+            return False
+
+    if hist.get("edit_input") and not collapsed and not layout_consistent(L, exp_sorted):
+        fail("aliasing", f"the layout follows edits of the caller's {type(inp).__name__} made after construction: "
+                         f"coords {L.coords.tolist()} for {coords}", via="input")
+        return res
+    if hist.get("edit_returned") and not collapsed:
+        op = hist["edit_returned"]
+        for rounds in range(2):         # cold caches, then warm
+            for name in ("traps_dict", "coords", "sorted_coords"):
+                if any([edit_in_place(a, op) for a in handed_out(L, name)]) and not layout_consistent(L, exp_sorted):
+                    fail("aliasing", f"after editing in place the arrays returned by layout.{name} the layout "
+                                     f"changed: traps_dict={ {k: v.tolist() for k, v in L.traps_dict.items()} } "
+                                     f"coords={L.coords.tolist()} for {coords}", via=name)
+                    return res
+        res.branches["history-returned-" + op] += 1
+    n = L.number_of_traps
     sorted_mu = mu_coords(L.coords.tolist())
     order_real = [int(i) for i in L._calc_sorting_order()]
     res.branches["dim%d" % L.dimensionality] += 1
@@ -399,6 +472,80 @@ def run_case(drv: Driver, case: dict) -> Result:
                 reg_default = (reg, list(ids))
         res.branches["defreg-" + ("ok" if real[0] == "ok" else "err")] += 1
 
+    # ---- register constructed directly with layout= / trap_ids= -------------------
+    dd = case.get("direct")
+    if dd is not None:
+        import pulser
+
+        ids, qids, offs = dd["ids"], dd["qids"], dd["offsets"]
+        true_td = {i: [float(v) for v in c] for i, c in enumerate(L.coords.tolist())}
+        pdim = dd.get("dim", L.dimensionality)
+        pos = []
+        for k, off in enumerate(offs):
+            base = true_td.get(ids[k] if k < len(ids) else -1, [0.0] * L.dimensionality)
+            base = (list(base) + [0.0] * pdim)[:pdim]
+            pos.append([float(b) + float(o) for b, o in zip(base, (list(off) + [0.0] * pdim)[:pdim])])
+        cls = pulser.Register3D if pdim == 3 else pulser.Register
+
+        def build_direct():
+            if dd.get("via") == "from_coordinates":
+                return cls.from_coordinates(pos, center=False, labels=list(qids), layout=L, trap_ids=tuple(ids))
+            return cls(dict(zip(qids, [np.array(p) for p in pos])), layout=L, trap_ids=tuple(ids))
+
+        real = real_call(build_direct)
+        model = ask(f"dreg {wire_coords(cmu)} {pdim} {wire_list(qids)} "
+                    f"[{';'.join(','.join(common.rat(rpos(v)) for v in p) for p in pos)}] "
+                    f"{wire_list(enc_ids(ids, n))}")
+        in_range = all(0 <= i < n for i in ids)
+        on_traps = (len(ids) == len(pos) and in_range
+                    and all(p == true_td[i] for p, i in zip(pos, ids)))
+        exp_ok = (len(pos) > 0 and pdim == L.dimensionality and len(set(ids)) == len(ids)
+                  and len(ids) == len(pos) and in_range and on_traps)
+        worst = max([abs(float(o)) for off in offs for o in off] + [0.0])
+        if (real[0] == "ok") != exp_ok:
+            cause = ("negative-trap-id" if any(i < 0 for i in ids) else
+                     "off-trap" if (in_range and len(ids) == len(pos) and not on_traps) else "other")
+            fail("direct-register-accept",
+                 f"{cls.__name__}(positions {pos}, layout=L, trap_ids={ids}) -> {real[0]} "
+                 f"{real[1] if real[0]=='err' else ''}; expected ok={exp_ok} (traps {true_td}, largest offset "
+                 f"{worst:g})", cause=cause)
+        if real[0] == "err" and real[1].startswith("other:") and not exp_ok:
+            fail("direct-register-accept", f"trap_ids={ids} on {n} traps raises {real[1]}", cause="error-class")
+        if cmp_status("direct-register", real, model):
+            reg = real[1]
+            mm = model[1]
+            rq = reg.qubits
+            got_ids = [str(q) for q in rq.keys()]
+            got_pos = mu_coords([np.asarray(p.as_array()).tolist() for p in rq.values()])
+            got_traps = [int(t) for t in reg._layout_info.trap_ids]
+            if (got_ids != parse_list(mm["ids"]) or got_pos != parse_coords(mm["pos"])
+                    or got_traps != parse_list(mm["traps"], int)):
+                res.diverge.append(("direct-register", f"real=({got_ids},{got_pos},{got_traps}) model={mm}"))
+        if real[0] == "ok":
+            reg = real[1]
+            rq = reg.qubits
+            tids = [int(t) for t in reg._layout_info.trap_ids]
+            placed = (len(tids) == len(rq) and all(0 <= t < n for t in tids) and all(
+                np.asarray(p.as_array(), dtype=float).tolist() == true_td[t] for p, t in zip(rq.values(), tids)))
+            if not placed:
+                fail("define-register-places", f"register carries trap ids {tids} but its qubits "
+                                               f"{[np.asarray(p.as_array()).tolist() for p in rq.values()]} are not "
+                                               f"exactly on those traps", via="direct")
+            back = real_call(lambda: L.get_traps_from_coordinates(*[np.asarray(p.as_array()) for p in rq.values()]))
+            if back[0] != "ok" or [int(i) for i in back[1]] != tids:
+                fail("lookup-inverse", f"directly constructed register carries trap ids {tids}; its coordinates look "
+                                       f"up to {back[1]}", via="direct")
+            if len(tids) >= 2 and all(0 <= t < n for t in tids):
+                wsel = {t: [0.3, 0.6, 0.1, 0.9, 0.45][k % 5] for k, t in enumerate(tids)}
+                dmr = real_call(lambda: L.define_detuning_map(wsel))
+                if dmr[0] == "ok":
+                    qw = dmr[1].get_qubit_weight_map(rq)
+                    if any(abs(qw[q] - wsel[t]) > 1e-12 for q, t in zip(rq.keys(), tids)) and not any(
+                            crowded_mu(sorted_mu, sorted_mu[t]) for t in tids):
+                        fail("weight-lookup", f"register on traps {tids}: detuning map {wsel} gives {qw}",
+                             cause="trap-id", via="direct")
+        res.branches["direct-" + ("ok" if real[0] == "ok" else "err")] += 1
+
     # ---- mappable register ---------------------------------------------------
     mp = case.get("mappable")
     if mp is not None:
@@ -444,6 +591,30 @@ def run_case(drv: Driver, case: dict) -> Result:
         near = [t for t in given_mu if t != p and all(
             100000 * abs(a - b) <= 100000 + abs(b) for a, b in zip(t, p))]
         return "rtol" if near else other
+
+    def wm_consistent(dm, exp_mu, exp_w):
+        order = sorted(range(len(exp_mu)), key=lambda i: tuple(exp_mu[i]))
+        try:
+            return (mu_coords(dm.trap_coordinates.tolist()) == exp_mu
+                    and [float(w) for w in dm.weights] == [float(w) for w in exp_w]
+                    and mu_coords(dm.sorted_coords.tolist()) == [exp_mu[i] for i in order]
+                    and [float(w) for w in dm.sorted_weights] == [float(exp_w[i]) for i in order])
+        except Exception:  # noqa: BLE001
+            return False
+
+    def attack_wm(dm, exp_mu, exp_w) -> bool:
+        """history: edit in place the arrays a weight map hands out; it must keep describing its inputs"""
+        op = hist.get("edit_returned")
+        if not op or collapsed:
+            return True
+        for rounds in range(2):
+            for name in ("trap_coordinates", "sorted_coords", "sorted_weights", "traps_dict"):
+                if any([edit_in_place(a, op) for a in handed_out(dm, name)]) and not wm_consistent(dm, exp_mu, exp_w):
+                    fail("aliasing", f"after editing in place the array returned by {type(dm).__name__}.{name} the "
+                                     f"map changed: trap_coordinates={dm.trap_coordinates.tolist()} "
+                                     f"sorted_coords={dm.sorted_coords.tolist()} (declared {exp_mu})", via=name)
+                    return False
+        return True
 
     def check_weight_map(dm, clause, given_mu, given_w, positions, qids=None):
         """correspondence + monitor of sorted_weights / get_qubit_weight_map on `positions`"""
@@ -514,6 +685,8 @@ def run_case(drv: Driver, case: dict) -> Result:
         if cmp_status("detmap-define", real, model):
             dm = real[1]
             mm = model[1]
+            if not attack_wm(dm, [sorted_mu[i] for i, _ in pairs], [w for _, w in pairs]):
+                return res
             given_mu = mu_coords(dm.trap_coordinates.tolist())
             given_w = [float(w) for w in dm.weights]
             if given_mu != parse_coords(mm["pos"]) or [frac(w) for w in given_w] != parse_list(mm["w"], Fraction):
@@ -547,10 +720,33 @@ def run_case(drv: Driver, case: dict) -> Result:
     wm = case.get("wmap")
     if wm is not None and rect:
         ws, positions = wm["weights"], wm["positions"]
-        real = real_call(lambda: DetuningMap(coords, ws))
+        inp_c = np.array(coords, dtype=float) if hist.get("input") == "ndarray" else copy.deepcopy(coords)
+        inp_w = list(ws)
+        real = real_call(lambda: DetuningMap(inp_c, inp_w))
         model = ask(f"wmap {wire_coords(cmu)} {wire_list(ws, common.rat)} []")
+        if real[0] == "ok" and hist.get("edit_input") and not collapsed:
+            if isinstance(inp_c, np.ndarray):
+                inp_c += 11.5
+            else:
+                for row in inp_c:
+                    row[0] = row[0] + 11.5
+            inp_w[0] = 1.0 - inp_w[0] if 0 <= inp_w[0] <= 1 else 0.5
+            if not wm_consistent(real[1], cmu, ws):
+                fail("aliasing", f"the weight map follows edits of the caller's {type(inp_c).__name__} made after "
+                                 f"construction: sorted_coords {real[1].sorted_coords.tolist()} for {coords}",
+                     via="input")
+                return res
         if cmp_status("weight-map-build", real, model):
             dm = real[1]
+            if not attack_wm(dm, cmu, ws):
+                return res
+            if all(float(w).is_integer() for w in ws) and not collapsed:
+                # the same weights given as ints
+                dmi = DetuningMap(coords, [int(w) for w in ws])
+                if not (dm == dmi and dmi == dm and dm.static_hash() == dmi.static_hash()):
+                    fail("eq-representation", f"weight maps with the same traps and weights compare unequal when the "
+                                              f"weights are given as ints: {coords} {ws}", cause="weights-dtype")
+                res.branches["variant-weights-as-int"] += 1
             got = check_weight_map(dm, "weight-lookup", cmu, [float(w) for w in ws], positions)
             p2 = wm.get("perm")
             if p2 is not None and got is not None:
@@ -601,6 +797,8 @@ def run_case(drv: Driver, case: dict) -> Result:
         if cmp_status("detmap-define", real, model):
             dm = real[1]
             mm = model[1]
+            if not attack_wm(dm, [sorted_mu[ids[names.index(q)]] for q, _ in pairs], [w for _, w in pairs]):
+                return res
             given_mu = mu_coords(dm.trap_coordinates.tolist())
             given_w = [float(w) for w in dm.weights]
             if given_mu != parse_coords(mm["pos"]) or [frac(w) for w in given_w] != parse_list(mm["w"], Fraction):
@@ -833,6 +1031,35 @@ def gen_case(rng: random.Random) -> dict:
         elif r2 < 0.25:
             qids = []
     case["defreg"] = {"ids": ids, "qids": qids}
+    # history: the caller edits its own input / the arrays it was handed
+    r = rng.random()
+    if r < 0.45:
+        case["history"] = {"input": rng.choice(["ndarray", "list"]),
+                           "edit_input": rng.random() < 0.5,
+                           "edit_returned": rng.choice([None, "shift", "zero", "scale"])}
+    # a register constructed directly with layout= / trap_ids=
+    if rng.random() < 0.55:
+        k = rng.randrange(1, min(n, 4) + 1)
+        dids = rng.sample(range(n), k)
+        offs = [[0.0] * dim for _ in range(k)]
+        r = rng.random()
+        if r < 0.6:
+            j = rng.randrange(k)
+            c = [rnd(v) for v in sorted(coords, key=lambda c: tuple(mu(v) for v in c))[dids[j]]]
+            d = max(range(dim), key=lambda a: abs(c[a])) if rng.random() < 0.7 else rng.randrange(dim)
+            size = rng.choice([1e-9, 4e-7, 6e-7, 1e-6, 2e-6, 1e-5, 1e-4, 3e-4, 1e-3, 0.5,
+                               0.3e-5 * abs(c[d]), 0.9e-5 * abs(c[d]), 2e-5 * abs(c[d])])
+            offs[j][d] = rng.choice([1, -1]) * size
+        r = rng.random()
+        if r < 0.06:
+            dids[-1] = rng.choice([n, n + 2, -1, -n])
+        elif r < 0.10 and k >= 2:
+            dids[1] = dids[0]
+        elif r < 0.14:
+            dids = dids + [rng.randrange(n)]
+        case["direct"] = {"ids": dids, "qids": rng.sample(NAMES, k), "offsets": offs,
+                          "dim": dim if rng.random() < 0.94 else 5 - dim,
+                          "via": rng.choice(["ctor", "ctor", "from_coordinates"])}
     # mappable
     if rng.random() < 0.6:
         nd = rng.randrange(1, n + 1) if rng.random() < 0.9 else n + 1
@@ -868,7 +1095,8 @@ def gen_case(rng: random.Random) -> dict:
         case["ldet"] = {"weights": ws, "reg_ids": rng.sample(range(n), rng.randrange(1, n + 1))}
     # direct weight map + free positions
     if rng.random() < 0.6:
-        ws = [rng.choice(wchoices) for _ in range(n)]
+        ws = [rng.choice(wchoices) for _ in range(n)] if rng.random() < 0.8 else \
+            [rng.choice([0.0, 1.0]) for _ in range(n)]
         r = rng.random()
         if r < 0.05:
             ws[0] = 1.0000001
@@ -929,7 +1157,8 @@ def gen_special(rng: random.Random) -> dict:
 # ---------------------------------------------------------------------------
 # shrinking
 # ---------------------------------------------------------------------------
-SECTIONS = ["perm", "variant", "other", "lookup_raw", "lookup_foreign", "defreg", "mappable", "ldet", "wmap", "rdet"]
+SECTIONS = ["perm", "variant", "other", "lookup_raw", "lookup_foreign", "defreg", "direct", "mappable", "ldet", "wmap",
+            "rdet", "history"]
 
 
 def _drop_coord(case: dict, j: int) -> dict | None:
@@ -943,7 +1172,8 @@ def _drop_coord(case: dict, j: int) -> dict | None:
     last = max(range(n), key=lambda i: (tuple(cmu[i]), i))
     keep_ids = (j == last) and len({tuple(c) for c in cmu}) == n
     c = {k: copy.deepcopy(v) for k, v in case.items()
-         if k in ("style", "coords", "variant") or (keep_ids and k in ("defreg", "mappable", "ldet", "wmap", "rdet"))}
+         if k in ("style", "coords", "variant", "history")
+         or (keep_ids and k in ("defreg", "direct", "mappable", "ldet", "wmap", "rdet"))}
     c["coords"].pop(j)
     if c.get("variant"):
         c["variant"]["coords"].pop(j)
@@ -955,6 +1185,13 @@ def _drop_coord(case: dict, j: int) -> dict | None:
             if d.get("qids") and len(d["qids"]) == len(d["ids"]):
                 d["qids"] = [d["qids"][k] for k in kept]
             d["ids"] = [d["ids"][k] for k in kept]
+        if c.get("direct"):
+            d = c["direct"]
+            kept = [k for k, i in enumerate(d["ids"]) if i != n - 1 and k < len(d["qids"])]
+            d["ids"], d["qids"] = [d["ids"][k] for k in kept], [d["qids"][k] for k in kept]
+            d["offsets"] = [d["offsets"][k] for k in kept]
+            if not kept:
+                c.pop("direct")
         if c.get("mappable"):
             c["mappable"]["qubits"] = [p for p in c["mappable"]["qubits"] if p[1] != n - 1]
         if c.get("ldet"):
